@@ -58,6 +58,14 @@ def special_shapes():
     out.append(("only-other", Doc([A("OTHER", v), B("B1", [A("K", v2)])])))
     out.append(("only-keys", Doc([A("STATUS", v), A("RISKS", v2), A("DECISIONS", v), A("TESTS", v), A("CI", v2), A("DEPS", v)])))
     out.append(("empty-blocks", Doc([B("STATUS", []), B("B1", [B("B2", [])]), A("TESTS", v)])))
+    # filter keys of one mode nested inside a subtree that the other mode keeps
+    out.append(("cross-nested-keys", Doc([B("STATUS", [A("TESTS", v), B("CI", [A("LAST_RUN", v2)]), A("X", v)]), B("TESTS", [A("RISKS", v), A("STATUS", v2), B("DECISIONS", [A("D1", v)])]),
+                                          Sec("1", "SEC", [B("STATUS", [A("DEPS", v)]), B("DEPS", [A("RISKS", v2)])]), A("OTHER", v)], meta=META, separator=True)))
+    # literal zones whose bytes a trim / NFC pass would change
+    zws = dm.Zone("keep trailing space \n\t\n   \nlast\t", None, "```")
+    znfd = dm.Zone("e\u0301 \u212b \u2126", "txt", "```")
+    out.append(("zone-trailing-ws", Doc([A("STATUS", zws), B("B1", [A("TESTS", zws), A("K", v)]), A("OTHER", zws)], meta=META, separator=True)))
+    out.append(("zone-nfd", Doc([A("STATUS", znfd), B("B1", [A("TESTS", znfd), A("K", v)]), A("OTHER", znfd)], meta=META, separator=True)))
     return out
 
 
@@ -132,6 +140,7 @@ def check_doc(case, via_cli=False) -> Res:
     steps = 0
     cs0 = dict(label=label, doc=d)
     per_mode = {}
+    md_keys = {}
     for mode in MODES:
         for fmt in FORMATS:
             cs = dict(cs0, mode=mode, format=fmt, cli=via_cli)
@@ -182,6 +191,8 @@ def check_doc(case, via_cli=False) -> Res:
                 if invented:
                     atoms.append(f"{fmt}:{mode}:invented:path-invented")
                 full = not dropped
+            if got is None:
+                md_keys[mode] = sorted(got_paths)
             if mode in ("canonical", "authoring"):
                 if dropped:
                     atoms.append(f"{fmt}:{mode}:incomplete")
@@ -205,6 +216,25 @@ def check_doc(case, via_cli=False) -> Res:
                 a = f"{fmt}:{mode}:leaf-set-differs-from-octave-rendering"
                 viol.append(dict(descriptor=a, atoms=[a], case=dict(cs0, mode=mode, format=fmt, cli=via_cli),
                                  observed=f"{fmt}: {paths[:12]} vs octave: {base[:12]}"[:700], expected="same set of leaves in every rendering"))
+    # ... and the Markdown rendering names the same leaf keys as the OCTAVE rendering of the same projection
+    for mode, keys in md_keys.items():
+        base = per_mode.get(mode, {}).get("octave")
+        if base is None:
+            continue
+
+        def mdkey2(p):
+            return p[1] if p and p[0] == "META" and len(p) > 2 else p[-1]
+        seen_meta, bk = set(), []
+        for p in base:
+            if p and p[0] == "META" and len(p) > 2:
+                if p[1] in seen_meta:
+                    continue
+                seen_meta.add(p[1])
+            bk.append((mdkey2(p),))
+        if set(bk) != set(keys):          # per_mode holds SETS of paths (duplicate siblings are KF-C14-1's business)
+            a = f"markdown:{mode}:leaf-keys-differ-from-octave-rendering"
+            viol.append(dict(descriptor=a, atoms=[a], case=dict(cs0, mode=mode, format="markdown", cli=via_cli),
+                             observed=f"markdown keys {sorted(keys)[:14]} vs octave keys {sorted(bk)[:14]}"[:700], expected="same leaf keys in every rendering of one projection"))
     uniq, seen = [], set()
     for v in viol:
         k = (v["descriptor"])
@@ -222,7 +252,8 @@ def run(ctx):
     docs = documents(ctx.quick)
     ctx.coverage["bounds"] = {"documents": len(docs), "modes": MODES, "formats": FORMATS}
     ctx.explore("eject_tool", docs, check_doc, chunk=8)
-    ctx.explore("eject_cli", [d for d in docs if d[0].startswith(("X:", "P:keys-top", "P:falsy"))][:: (2 if ctx.quick else 1)], check_doc_cli, chunk=4)
+    cli_docs = [d for d in docs if d[0].startswith("X:")] + [d for d in docs if d[0].startswith(("P:keys-top", "P:falsy"))][:: (2 if ctx.quick else 1)]
+    ctx.explore("eject_cli", cli_docs, check_doc_cli, chunk=4)
     sl.cleanup()
 
 
